@@ -128,9 +128,31 @@ class Rec:
         self.trace.append(("task_end", e.name))
 
 
-def run_dag(dagname, optimize, parallel, batch_size, use_backups, outcomes, dts, perms, max_running=None, max_fail=0):
+def mark_resumed(dag, info, flags):
+    """what Plan.execute(resume=True) does to the DAG before handing it to the executor: EVERY node gets a `computed` flag -- nodes
+    without a pipeline (arrays) are 'computed', operations according to already_computed (here: the symbolic flags, forked by value);
+    create-arrays is never skipped.  Returns (dag copy, skipped ops)"""
+    dag = dag.copy()
+    skipped = set()
+    ops = sorted(o for o in info if o != "create-arrays")
+    for k, op in enumerate(ops):
+        if k < len(flags) and sx.conc(flags[k]) == 1:
+            skipped.add(op)
+    for name, d in dag.nodes(data=True):
+        if d.get("pipeline", None) is None:
+            d["computed"] = True
+        else:
+            d["computed"] = name in skipped
+    return dag, skipped
+
+
+def run_dag(dagname, optimize, parallel, batch_size, use_backups, outcomes, dts, perms, max_running=None, max_fail=0, resume_flags=None):
     amd = _load()
     dag, info, producers = build_dag(dagname, optimize)
+    if resume_flags is not None:
+        dag, skipped = mark_resumed(dag, info, resume_flags)
+        info = {o: d for o, d in info.items() if o not in skipped}
+        producers = {o: {p for p in ps if p not in skipped} for o, ps in producers.items() if o not in skipped}
     w = sched.WORLD = sched.World(outcomes, dts, perms, max_running)
     w.max_fail = max_fail
     trace = w.events
@@ -149,6 +171,9 @@ def run_dag(dagname, optimize, parallel, batch_size, use_backups, outcomes, dts,
         for i in inputs:
             f = w.new_future(key(i), False, opname(name, config))
             out.append((i, f))
+        # the barrier is checked at the moment of submission too, so that a violation is reported even when the rest of the
+        # schedule does not fit into the observation budget
+        check_barrier([e for e in trace], info, producers, final=False)
         return out
 
     kwargs = {}
@@ -179,7 +204,7 @@ def run_dag(dagname, optimize, parallel, batch_size, use_backups, outcomes, dts,
     return trace, info, producers
 
 
-def check_barrier(trace, info, producers):
+def check_barrier(trace, info, producers, final=True):
     """C07: every submit of an op happens after a successful completion of every task of every producer op and of
     every create-arrays task; an op's stream ends only when every one of its tasks has a successful completion"""
     done_ok = {}  # op -> set of inputs completed successfully so far
@@ -195,6 +220,8 @@ def check_barrier(trace, info, producers):
                 missing = [t for t in info[p]["tasks"] if t not in done_ok.get(p, set())]
                 if missing:
                     raise sx.Violated("task-submitted-before-producer-finished", f"{op} input {ev[2]} submitted while {p} still has unfinished tasks {missing}")
+    if not final:
+        return
     for op, d in info.items():
         missing = [t for t in d["tasks"] if t not in done_ok.get(op, set())]
         if missing:
@@ -216,12 +243,14 @@ def check_events(trace, info):
             sx.require(e[1] in info, "task-end-for-unknown-operation", str(e))
 
 
-def make(dagname, optimize, parallel, batch_size, use_backups, n_o, n_d, n_p, twin=False, max_running=3):
+def make(dagname, optimize, parallel, batch_size, use_backups, n_o, n_d, n_p, twin=False, max_running=3, n_resume=0):
     def h(**kw):
         outcomes = [kw[f"o{k}"] for k in range(n_o)]
         dts = [kw[f"d{k}"] for k in range(n_d)]
         perms = [kw[f"p{k}"] for k in range(n_p)]
-        trace, info, producers = run_dag(dagname, optimize, parallel, batch_size, use_backups, outcomes, dts, perms, max_running, max_fail=(1 if use_backups else 0))
+        flags = [kw[f"s{k}"] for k in range(n_resume)] if n_resume else None
+        trace, info, producers = run_dag(dagname, optimize, parallel, batch_size, use_backups, outcomes, dts, perms, max_running, max_fail=(1 if use_backups else 0),
+                                         resume_flags=flags)
         if trace is None:
             return
         sx.note(trace)
@@ -319,6 +348,19 @@ def obligations(tier):
                      outside="more than one task failure (only with backups on; C08 decides the map itself), longer schedules (counted as unreachable, not as success), real event loop / pools / aiostream",
                      stubs=["sched.ShimAsyncio", "sched.ShimTime", "sched.ShimStream"],
                      witness_rule=lambda m: any(v == 0 for k, v in m.items() if k.startswith("o"))))
+    # resumed runs: Plan.execute(resume=True) flags every node; the executor must still order what is left to run
+    rcombos = [("chain-unequal", 0, True, None, 30, 40, 10, 2), ("chain-unequal", 0, False, None, 30, 40, 8, 2), ("diamond", 0, True, None, 30, 40, 12, 0),
+               ("multi-output", 0, True, None, 30, 40, 12, 1)]
+    if tier != "quick":
+        rcombos = [(dn, opt, par, bs, 40, 60, 14, 2) for dn in ("chain-unequal", "diamond", "independent", "multi-output", "rechunk-then-add") for opt in (0, 1)
+                   for par in (False, True) for bs in (None, 2)]
+    for dn, opt, par, bs, n_o, n_d, n_p, mr in rcombos:
+        o.append(Obl(f"barrier-resume[{dn},optimize={opt},parallel={int(par)},batch={bs}]", make(dn, opt, par, bs, False, n_o, n_d, n_p, max_running=mr, n_resume=6),
+                     vars_(n_o, n_d, n_p) + [(f"s{k}", 0, 1) for k in range(6)], setup=setup, functions=fns + [cp.FinalizedPlan.execute, cp.already_computed], wall_s=wall,
+                     bounds=f"as barrier[...] on plan '{dn}', with every subset of its operations flagged as already computed the way Plan.execute(resume=True) flags them "
+                            "(array nodes flagged too); the barrier is required among the operations left to run",
+                     outside="which subsets a real interrupted run can leave behind (all subsets are taken)", stubs=["sched.ShimAsyncio", "sched.ShimTime", "sched.ShimStream"],
+                     witness_rule=lambda m: any(v == 1 for k, v in m.items() if k.startswith("s")) and any(v == 0 for k, v in m.items() if k.startswith("s"))))
     o.append(Obl("twin:barrier[diamond,parallel]", make("diamond", 0, True, None, False, 30, 40, 12, twin=True, max_running=0), vars_(30, 40, 12), setup=setup,
                  twin_of="barrier[diamond,optimize=0,parallel=1,batch=None,backups=0]", wall_s=wall))
     for dn in ("diamond", "multi-output", "chain-unequal"):
